@@ -8,6 +8,7 @@ package main
 
 import (
 	"bytes"
+	"crypto/sha256"
 	"fmt"
 	"go/ast"
 	"go/printer"
@@ -571,6 +572,39 @@ func genC15() {
 		return true
 	})
 	facts["lease_runcluster_order"] = order
+
+	// fingerprints of the whole functions that use the election in cmd/syncer.go
+	// (printed, whitespace-normalised, sha256/64 bit): clusterTicker is executed
+	// by the harness; runCluster only up to its first campaign, so any edit of
+	// these must be re-read against the model's assumptions.
+	for _, fn := range []string{"clusterTicker", "clusterRenew", "clusterCampaign", "runCluster"} {
+		fd := c15FuncByName(g, fn)
+		if fd == nil {
+			die("cmd/syncer.go: %s not found", fn)
+		}
+		sum := sha256.Sum256([]byte(c15Print(fset2, fd)))
+		facts["lease_src_"+fn] = fmt.Sprintf("%x", sum[:8])
+	}
+	// election identity and key as runCluster derives them
+	ast.Inspect(rc.Body, func(n ast.Node) bool {
+		switch x := n.(type) {
+		case *ast.CallExpr:
+			if c15CallName(x) == "NewElection" {
+				var a []string
+				for _, e := range x.Args {
+					a = append(a, c15Print(fset2, e))
+				}
+				facts["lease_newelection_args"] = a
+			}
+		case *ast.AssignStmt:
+			if len(x.Lhs) == 1 && len(x.Rhs) == 1 {
+				if id, ok := x.Lhs[0].(*ast.Ident); ok && id.Name == "key" {
+					facts["lease_key_expr"] = c15Print(fset2, x.Rhs[0])
+				}
+			}
+		}
+		return true
+	})
 
 	// the two scripts last: if one cannot be translated the facts above are still recorded
 	var sb strings.Builder
